@@ -112,6 +112,20 @@ def programs():
         P.append(('call_deep_then_more%d' % n, [(C('t', X), ('and', ('call', C('=', V('G'), C('down', peano(n)))), ('call', C('call', V('G'))))), (C('t', A('none')), ('true',))] + deep, 't', [V('Q')]))
         P.append(('ite_deep_then_more%d' % n, [(C('t', X), ('or', ('then', ('call', C('down', peano(n))), ('call', C('=', X, A('a')))), ('call', C('=', X, A('b'))))),
                                                (C('t', A('c')), ('true',))] + deep, 't', [V('Q')]))
+    # host values as terms: comparing two of them is Python code of its own (frames beyond what the engine itself needs
+    # at that point), so the depth limit can strike INSIDE the comparison; the facts hf/2 are asserted through the API
+    for n in (12, 30):
+        HV = ('py', 'DeepKey(2,depth=12)')
+        # (the recursion walks a chain of small facts: no deep term anywhere, so the comparison of the two host values
+        # at the end of the chain is the deepest point of the whole search)
+        links = [(C('link', A('k%d' % i), A('k%d' % (i + 1))), ('true',)) for i in range(n)]
+        P.append(('host_values_compared_deep%d' % n,
+                  [(C('find', C('found', V('K')), V('H')), ('call', C('walk', A('k0'), V('H'), V('K')))),
+                   (C('find', A('fallback'), V('_')), ('true',)),
+                   (C('walk', A('k%d' % n), V('H'), V('K')), ('call', C('hf', V('K'), V('H')))),
+                   (C('walk', V('X'), V('H'), V('K')), ('and', ('call', C('link', V('X'), V('Y'))), ('call', C('walk', V('Y'), V('H'), V('K'))))),
+                   (C('hf', A('a'), ('py', 'DeepKey(1,depth=12)')), ('true',)), (C('hf', A('b'), HV), ('true',)),
+                   (C('hf', A('c'), ('py', 'DeepKey(3,depth=12)')), ('true',))] + links, 'find', [V('Q'), HV]))
     P.append(('deep_then_answers', [(C('d', X), ('and', ('call', C('down', peano(60))), ('call', C('mem', X, L([A('a'), A('b')])))))] + down + mem, 'd', [V('Q')]))
     return P
 
@@ -185,6 +199,11 @@ def child(ctx, prog, limit, fault, hold, nested=False, gv_proj=False, raise_limi
         yp = real.engine()
         for h, b in cl:
             yp.assert_fact(yp.atom(h[1]), [build_real(yp, a, {}) for a in h[2]])
+    elif name.startswith('host_'):
+        yp = real.engine(real.compile(rprogram([(h, b) for h, b in cl if not (h[0] == 'c' and h[1] == 'hf')])))
+        for h, b in cl:
+            if h[0] == 'c' and h[1] == 'hf':
+                yp.assert_fact(yp.atom('hf'), [build_real(yp, a, {}) for a in h[2]])
     else:
         yp = real.engine(real.compile(rprogram(cl)))
     yp.assert_fact(yp.atom('nestp'), [1])
